@@ -37,6 +37,15 @@ INVALID = [
 # valid units that make the emitter extend or patch buffers it got from realloc (zero-extension of string initialisers up to
 # a later designated element, strings patched by element designators, long literals): sensitive to the contents of fresh memory
 VALID_EXTRA = [
+    # designator chains that reach five and more levels down before a braced sub-list (per-level state of the initializer parser);
+    # one chain per unit, so that a result that varies from run to run is not masked by another chain of the same unit
+    'struct cube { int cell[2][2][2][2][2][2]; int n; };\nstruct cube c = { .cell[1][0][1][0][1] = {7, 8}, 9 };\n',
+    'struct leaf { int v[2]; int w; };\nstruct tree { struct { struct { struct { struct { struct leaf e; int d4; } d; int d3; } c; int d2; } b; int d1; } a; int top; };\nstruct tree t = { .a.b.c.d.e.v = {1, 2}, 3, 4, 5, 6, 7, 8 };\n',
+    'struct cube { int cell[2][2][2][2][2][2]; int n; };\nint peek(void) { struct cube k = { .cell[0][1][1][0][0] = {5, 6}, 4 }; return k.cell[0][1][1][0][0][1] + k.n; }\n',
+    'struct d7 { struct { struct { struct { struct { struct { struct { int z[2]; int y; } g; int x; } f; } e; } d; } c; } b; int a; };\nstruct d7 v = { .b.c.d.e.f.g.z = {1, 2}, 3, 4, 5 };\n',
+    # objects whose type is the typeof of a constant expression node (sizeof, character constant, _Alignof, offsetof, enum constant): qualifiers of the node
+    'struct s { char c; long l; }; enum { EK = 3 };\nint f(void) { typeof(sizeof(int)) a; typeof(\'c\') b; typeof(_Alignof(long)) c; typeof(__builtin_offsetof(struct s, l)) d; typeof(EK) e; typeof(1 + 2) g; typeof(10ul) h; typeof(1 ? 2 : 3) i;\n'
+    '  a = 1; b = 2; c = 3; d = 4; e = 5; g = 6; h = 7; i = 8; a++; b += 2; --c; return a + b + c + d + e + g + h + i; }\n',
     # per-argument bookkeeping of macro invocations: parameters that are unused or only stringized, before ones that are used
     '#define PICK(unused, b) b\n#define NAME(a, b) #a, b\n#define THIRD(a, b, c) c\n#define MIX(a, b, c, d) #b d\nint p1 = PICK(9, 4); char *n1[] = { NAME(x y, "z") }; int t1 = THIRD(, , 7); char *m1 = MIX(1, q r, 3, "s");\n'
      'int p2 = PICK((1, 2), PICK(3, 5)); char *n2[] = { NAME(PICK(1, 2), NAME(u, "v")) };\n',
